@@ -1,7 +1,7 @@
 """C01 / C02 / C12: JSON Schema samples against a Draft 2020-12 validator; stream J (parse.py model)."""
 import random, json, copy, sys
 import fences_env
-from common import Check, run_driver
+from common import Check, run_driver, json_corpus
 import jsonschemas as J, graphs, regexes as R
 
 fences_env.load()
@@ -570,13 +570,15 @@ def run(pid, tier):
                      {"theorem": ck.obl["file"]}, found_input=False)
     rng = random.Random(ck.seed * 733 + 41)
     n = 300 if tier == "quick" else 4000
-    docs = []
+    docs = [e["schema"] for e in json_corpus(pid) if isinstance(e["schema"], bool) or J.metaschema_ok(e["schema"])]
+    n += len(docs)
     while len(docs) < n:
         m = rng.random()
         d = gen_ref_twins(rng) if m < 0.06 else gen_same_twice(rng) if m < 0.12 else gen_doc(rng, allow_anyof=(pid == "C01"))
         if isinstance(d, bool) or J.metaschema_ok(d):
             docs.append(d)
-    hist = {"in_scope": 0, "with_ref": 0, "with_allOf": 0, "with_array": 0, "raises_library_exception": 0, "labelled_valid": 0, "labelled_invalid": 0}
+    hist = {"in_scope": 0, "with_ref": 0, "with_allOf": 0, "with_array": 0, "raises_library_exception": 0, "labelled_valid": 0, "labelled_invalid": 0,
+            "corpus_documents": len(json_corpus(pid))}
     sys.setrecursionlimit(2500)
     # --- correspondence (ordered sets installed): parse.py on the implementation's own normal form, and end to end
     J.install_ordered_sets()
